@@ -160,6 +160,13 @@ func (p *PaymentService) Withdraw(ctx context.Context, sig string, wallet string
 	}
 	defer p.finishWithdraw(account)
 
+	// What is going to be paid out is read from where it is kept, not from a
+	// cache that is kept current by events: the wallet may have taken its
+	// deposit out of the contract itself a moment ago (or have locked it for
+	// that), and the event that says so not have arrived yet.
+	if fresh, ok := p.BalanceStore.(interface{ ForgetAccount(store.Account) }); ok {
+		fresh.ForgetAccount(account)
+	}
 	balance, err := p.BalanceStore.GetAccountBalance(account)
 	if err != nil {
 		return err
